@@ -73,3 +73,76 @@ end
 def moduleJson (m : Module) : Json := .arr [.str "module", regionJson m.root]
 
 end HugrVerif.Bridge.Model
+
+/-! ### the inverse: a dumped module (of the implementation) → `Module` -/
+namespace HugrVerif.Bridge.Model
+open HugrVerif HugrVerif.Model
+
+def strsOf : Json → Option (List String)
+  | .arr xs => xs.mapM fun | .str s => some s | _ => none
+  | _ => none
+
+def kindOf : String → Option RegionKind
+  | "DATA_FLOW" => some .dataFlow
+  | "CONTROL_FLOW" => some .controlFlow
+  | "MODULE" => some .module
+  | _ => none
+
+mutual
+  partial def termOf : Json → Option Term
+    | .arr [.str "wildcard"] => some .wildcard
+    | .arr [.str "var", .str n] => some (.var n)
+    | .arr [.str "apply", .str s, .arr args] => do some (.apply s (← args.mapM termOf))
+    | .arr [.str "splice", t] => do some (.splice (← termOf t))
+    | .arr [.str "list", .arr ps] => do some (.list (← ps.mapM termOf))
+    | .arr [.str "tuple", .arr ps] => do some (.tuple (← ps.mapM termOf))
+    | .arr [.str "lit", .str "i", .int i] => some (.literal (.int i))
+    | .arr [.str "lit", .str "s", .str s] => some (.literal (.str s))
+    | .arr [.str "lit", .str "f", .str s] => some (.literal (.float s))
+    | .arr [.str "lit", .str "b", .arr bs] => do
+      some (.literal (.bytes (← bs.mapM fun | .int i => some i.toNat | _ => none)))
+    | .arr [.str "func", r] => do some (.func (← regionOf r))
+    | _ => none
+  partial def symbolOf : Json → Option Symbol
+    | .arr [.str "symbol", .str name, .arr ps, .arr cs, sig] => do
+      let params ← ps.mapM fun
+        | .arr [.str "param", .str n, t] => do some (Param.mk n (← termOf t))
+        | _ => none
+      some (.mk name params (← cs.mapM termOf) (← termOf sig))
+    | _ => none
+  partial def opOf : Json → Option Operation
+    | .arr [.str "InvalidOp"] => some .invalid
+    | .arr [.str "Dfg"] => some .dfg
+    | .arr [.str "Cfg"] => some .cfg
+    | .arr [.str "Block"] => some .block
+    | .arr [.str "TailLoop"] => some .tailLoop
+    | .arr [.str "Conditional"] => some .conditional
+    | .arr [.str "DefineFunc", s] => do some (.defineFunc (← symbolOf s))
+    | .arr [.str "DeclareFunc", s] => do some (.declareFunc (← symbolOf s))
+    | .arr [.str "DeclareAlias", s] => do some (.declareAlias (← symbolOf s))
+    | .arr [.str "DeclareConstructor", s] => do some (.declareConstructor (← symbolOf s))
+    | .arr [.str "DeclareOperation", s] => do some (.declareOperation (← symbolOf s))
+    | .arr [.str "DefineAlias", s, v] => do some (.defineAlias (← symbolOf s) (← termOf v))
+    | .arr [.str "CustomOp", t] => do some (.custom (← termOf t))
+    | .arr [.str "Import", .str n] => some (.import_ n)
+    | _ => none
+  partial def optTermOf : Json → Option (Option Term)
+    | .null => some none
+    | t => do some (some (← termOf t))
+  partial def nodeOf : Json → Option Node
+    | .arr [.str "node", op, ins, outs, .arr regions, .arr metas, sig] => do
+      some (.mk (← opOf op) (← strsOf ins) (← strsOf outs) (← regions.mapM regionOf) (← metas.mapM termOf)
+        (← optTermOf sig))
+    | _ => none
+  partial def regionOf : Json → Option Region
+    | .arr [.str "region", .str kind, sources, targets, .arr children, .arr metas, sig] => do
+      some (.mk (← kindOf kind) (← strsOf sources) (← strsOf targets) (← children.mapM nodeOf)
+        (← metas.mapM termOf) (← optTermOf sig))
+    | _ => none
+end
+
+def moduleOf : Json → Option Module
+  | .arr [.str "module", r] => do some ⟨← regionOf r⟩
+  | _ => none
+
+end HugrVerif.Bridge.Model
